@@ -123,6 +123,21 @@ QJsonObject generate()
     c["parkUs"] = pick(100, 1500);
     c["netShare"] = pick(0, 100);
     c["types"] = pick(1, 15);
+    // another Logger object (private, temporary; never installed) is created and destroyed while the producers log
+    c["extraLogger"] = chance(25);
+    if (chance(5)) {
+        // convoy: every message takes 60-150 ms inside the pipeline and all producers arrive at once, so the last ones wait
+        // for seconds at the logger's lock (a lock acquisition with a timeout would give up)
+        c["producers"] = pick(10, 16);
+        c["perProducer"] = pick(1, 2);
+        c["preDelay"] = 0;
+        c["sinkUs"] = pick(60, 150) * 1000;
+        c["slowEvery"] = 1;
+        c["firstUs"] = 0;
+        c["midUs"] = 0;
+        c["parkEvery"] = 0;
+        c["convoy"] = true;
+    }
     return c;
 }
 
@@ -211,7 +226,8 @@ std::string run(const QJsonObject &c)
     auto recSeq = FunctionHandlerPtr::create([&](LogMessage &m) { afterSeq.add(m); if (handled % slowEvery == 1) delayFor(midUs); return true; });
     auto dup = DuplicateFilterPtr::create();
     auto pretty = PrettyFormatterPtr::create(false, 15);
-    auto mkSink = [&](Recorder &r) { return FunctionHandlerPtr::create([&r, &handled, slowEvery, sinkUs](LogMessage &m) { r.add(m); if (handled % slowEvery == 2) delayFor(sinkUs); return true; }); };
+    const bool convoy = c["convoy"].toBool();
+    auto mkSink = [&](Recorder &r) { return FunctionHandlerPtr::create([&r, &handled, slowEvery, sinkUs, convoy](LogMessage &m) { r.add(m); if (convoy || handled % slowEvery == 2) delayFor(sinkUs); return true; }); };
 
     Logger *logger = nullptr;
     OwnThreadHandler<Pipeline> *bare = nullptr;
@@ -272,6 +288,13 @@ std::string run(const QJsonObject &c)
             }
         });
     go = true;
+    if (c["extraLogger"].toBool()) {
+        std::this_thread::sleep_for(std::chrono::microseconds(300));
+        Logger *other = new Logger();
+        *other << FunctionHandlerPtr::create([](LogMessage &) { return true; });
+        std::this_thread::sleep_for(std::chrono::microseconds(200));
+        delete other; // must not disturb the installed logger
+    }
     for (auto &t : threads) t.join();
     if (logger) {
         Logger::restorePreviousMessageHandler();
@@ -303,6 +326,8 @@ std::string run(const QJsonObject &c)
     count("probe_parks", probe.parks.load());
     count("parks_with_another_call_pending", parksDuringOverlap);
     cls("producers>16", P > 16);
+    cls("another_logger_destroyed_meanwhile", c["extraLogger"].toBool());
+    cls("convoy_waiting_seconds_at_the_lock", convoy);
     cls("subject_" + subject.toStdString());
     cls("calls_overlapped", overlapping > 0);
     cls("park_during_overlap", parksDuringOverlap > 0);
